@@ -109,3 +109,21 @@ Theorem C12_quorum_intersect : forall (U l1 l2 : list N),
 Proof. exact (quorum_intersect N.eq_dec). Qed.
 Goal True. idtac "ASSUMPTIONS-OF C12_quorum_intersect". Abort.
 Print Assumptions C12_quorum_intersect.
+
+(* (a) numbers do regress at a restart (known finding C12-numbers-regress-on-restart): the committed number ... *)
+Theorem C12_refuted_commit_id_monotone_restart :
+  exists cfg s acts m, init_ok cfg s /\
+    let s1 := fst (run cfg s acts) in cid_of (fst (step cfg s1 (ARestart m))) m < cid_of s1 m.
+Proof. exact refuted_commit_id_monotone_restart. Qed.
+Goal True. idtac "ASSUMPTIONS-OF C12_refuted_commit_id_monotone_restart". Abort.
+Print Assumptions C12_refuted_commit_id_monotone_restart.
+
+(* ... and an accepted, not yet committed number is forgotten by any restart, even one the guarded theorem allows *)
+Theorem C12_refuted_proposal_id_monotone_restart :
+  exists cfg s acts m, init_ok cfg s /\
+    let s1 := fst (run cfg s acts) in
+    filter is_ghost (snd (run cfg s (acts ++ [ARestart m]))) = [] /\
+    pid_of (fst (step cfg s1 (ARestart m))) m < pid_of s1 m.
+Proof. exact refuted_proposal_id_monotone_restart. Qed.
+Goal True. idtac "ASSUMPTIONS-OF C12_refuted_proposal_id_monotone_restart". Abort.
+Print Assumptions C12_refuted_proposal_id_monotone_restart.
